@@ -159,7 +159,36 @@ func main() {
 				}
 			}()
 		}
-		pid, err := r.Start()
+		var pid int
+		var err error
+		if c["nosetpcap"] == true {
+			// the launching thread is root with every capability but CAP_SETPCAP: locking the secure bits is refused in the child
+			done := make(chan struct{})
+			go func() {
+				runtime.LockOSThread() // never unlocked: the thread ends with this goroutine
+				hdr := unix.CapUserHeader{Version: unix.LINUX_CAPABILITY_VERSION_3}
+				var data [2]unix.CapUserData
+				if e := unix.Capget(&hdr, &data[0]); e != nil {
+					err = e
+				} else {
+					data[0].Effective &^= 1 << 8
+					data[0].Permitted &^= 1 << 8
+					data[0].Inheritable &^= 1 << 8
+					if e := unix.Capset(&hdr, &data[0]); e != nil {
+						err = e
+					}
+				}
+				if err != nil {
+					out["harness_err"] = "capset: " + err.Error()
+				} else {
+					pid, err = r.Start()
+				}
+				close(done)
+			}()
+			<-done
+		} else {
+			pid, err = r.Start()
+		}
 		close(stopCont)
 		if err != nil {
 			out["err"] = err.Error()
